@@ -260,17 +260,17 @@ def run_lex(texts):
     return lines, impl, model
 
 
-def shrink_text(text, fails):
+def shrink_text(text, fails, budget=300):
     """delta debugging on lines, then on tokens, then on characters (each keeps valid UTF-8)"""
     cur = text
     if cur.count("\n") > 3:
         parts = cur.split("\n")
-        cur = "\n".join(common.ddmin(parts, lambda c: fails("\n".join(c)), max_tests=200))
+        cur = "\n".join(common.ddmin(parts, lambda c: fails("\n".join(c)), max_tests=budget * 2 // 3))
     toks = TOKEN_RE.findall(cur)
     if len(toks) > 1:
-        cur = "".join(common.ddmin(toks, lambda c: fails("".join(c)), max_tests=300))
+        cur = "".join(common.ddmin(toks, lambda c: fails("".join(c)), max_tests=budget))
     if len(cur) <= 400:
-        cur = "".join(common.ddmin(list(cur), lambda c: fails("".join(c)), max_tests=300))
+        cur = "".join(common.ddmin(list(cur), lambda c: fails("".join(c)), max_tests=budget))
     return cur
 
 
@@ -425,13 +425,15 @@ def check_full_batch(ctx, cases, label, stats, timeout_ms=20000):
         cls = a.split(" ")[0]
         name0, text0 = mods[0]
 
+        hang = cls.startswith("timeout")
+
         def fails(t):
-            r = run_full([[(name0, t)] + list(mods[1:])], timeout_ms, workers=1)[0]
+            r = run_full([[(name0, t)] + list(mods[1:])], 1500 if hang else timeout_ms, workers=1)[0]
             return r.split(" ")[0] == cls and not full_signature(ctx, [(name0, t)] + list(mods[1:]), r)
 
         small = text0
-        if len(text0) <= 6000 and not cls.startswith("timeout"):
-            small = shrink_text(text0, fails)
+        if len(text0) <= 60000:
+            small = shrink_text(text0, fails, budget=40 if hang else 300)
         final = [[name0, small]] + [list(m) for m in mods[1:]]
         r = run_full([[tuple(m) for m in final]], timeout_ms, workers=1)[0]
         ctx.violation("the pipeline breaks C05 (crash/hang instead of result-or-diagnostics): " + describe_full(r),
